@@ -68,7 +68,7 @@ func coverLineSpecs(thorough bool) []composeSpec {
 		}
 	}
 	return []composeSpec{{
-		entry: pkg + "line", cases: cases, intervals: true, anyPath: true, skipTruncated: true, maxVisits: 3,
+		entry: pkg + "line", cases: cases, requires: []string{"maptile.New", "maptile.Fraction"}, noLiteralOf: "maptile.Tile", intervals: true, anyPath: true, skipTruncated: true, maxVisits: 3,
 		desc:    "the tile of a segment's start is constructed first, from the start's coordinates at the given zoom, on every path of a segment that is not zero-length (interval analysis of the 'same tile as last time' sentinel)",
 		oracles: map[string]func(*ssa.Function) oracleFunc{"maptile.Fraction": fraction, "maptile.New": newTile},
 		judge: func(_ *Interp, cx interface{}, st *State) string {
